@@ -17,23 +17,29 @@ def run(chk, replay=None):
     cfg = Cfg(nums=True)
     chk.rule = ("multi-line logs x {k-th write fails taking 0 / some / all-but-one bytes, for every k; read error after offset k (all offsets in thorough, seeded sample in quick); "
                 "gzip stream cut at offset k / byte flipped at offset k; /dev/full; closed pipe}; non-trivial = distinct (log, fault kind, position) triples")
+    # one BIG log: the output is several times larger than any buffer a writer is likely to put between the loop and the device (4 KiB, 64 KiB):
+    # a failure of an early write, of a middle one and of the last one, and read failures far into the input
+    biglines = [l for l in pool if len(l) < 3000]
+    big = [biglines[i % len(biglines)] for i in range(700 if th else 330)]
+    logs.append(big)
     for li, ls in enumerate(logs):
         data = b'\n'.join(ls) + b'\n'
+        is_big = ls is big
         free = streamlib.impl_stream(cfg, [{'data': data}])[0]
         full, nwrites = free[1], len(free[2] or [])
         if free[0] != 'ok':
             chk.violate('fault-free run failed', {'log': li, 'result': free[0]}, tags=['free']); continue
         cases, meta = [], []
-        for k in range(nwrites + 1):
-            for short in (0, 1, 17, 10 ** 6):
+        for k in (range(nwrites + 1) if not is_big else sorted({0, 1, 2, nwrites // 2, max(0, nwrites - 1), nwrites})):
+            for short in ((0, 1, 17, 10 ** 6) if not is_big else (0, 17)):
                 cases.append({'data': data, 'wfail': k, 'wshort': short, 'chunk': rng.choice([0, 64])}); meta.append(('write', k, short))
-        offs = range(len(data) + 1) if th else sorted(set(rng.sample(range(len(data) + 1), min(len(data), 120)) + [0, 1, len(data) - 1, len(data)]))
+        offs = sorted({len(data) // 4, len(data) // 2, len(data) * 9 // 10, len(data) - 2, len(data) - 1, len(data)}) if is_big else range(len(data) + 1) if th else sorted(set(rng.sample(range(len(data) + 1), min(len(data), 120)) + [0, 1, len(data) - 1, len(data)]))
         for k in offs:
             cases.append({'data': data, 'rfail': k, 'chunk': rng.choice([0, 1, 100])}); meta.append(('read', k, 0))
         ir = streamlib.impl_stream(cfg, cases); mr = streamlib.model_stream(cfg, cases)
         for c, (kind, k, short), (icls, iout, _), (mcls, mout) in zip(cases, meta, ir, mr):
             chk.count(); chk.traces += 1; chk.nontriv((li, kind, k, short)); chk.dist('fault_' + kind)
-            case = {'log': [l[:150].decode('utf-8', 'replace') for l in ls], 'fault': kind, 'k': k, 'short': short}
+            case = {'log': [l[:150].decode('utf-8', 'replace') for l in ls[:12]], 'lines': len(ls), 'fault': kind, 'k': k, 'short': short}
             if (icls, iout) != (mcls, mout):
                 chk.disagree('result and written bytes under a fault', case, (icls, iout[-200:].decode('utf-8', 'replace')), (mcls, mout[-200:].decode('utf-8', 'replace')))
             injected = (kind == 'write' and k < nwrites) or kind == 'read'
